@@ -17,7 +17,7 @@ IDT = scene.xf_tokens(scene.IDENT)
 
 def metamorphic(ctx):
     rng = ctx.rng
-    n = 250 if ctx.tier == "quick" else 5000
+    n = 360 if ctx.tier == "quick" else 6000
     A, B, kinds = [], [], []
     for i in range(n):
         W, H = rng.randrange(2, 11), rng.randrange(2, 11)
@@ -25,8 +25,31 @@ def metamorphic(ctx):
         xf = scene.rand_xf(rng, general=0.6)
         xt = scene.xf_tokens(xf)
         hdr = "%d %d I %s" % (W, H, init)
-        k = i % 4
-        if k == 0:
+        k = i % 6
+        if k == 5:
+            # fill_rect is the fill of the rectangle path in the same user space: under every transform that is not the
+            # identity the two calls must paint identical pixels (shears with a unit diagonal, integer and fractional
+            # translations, scales, rotations)
+            tt = rng.choice([(1.0, 0.0, rng.choice([0.5, -0.25, 1.0]), 1.0, float(rng.randrange(-2, 3)), float(rng.randrange(-2, 3))),
+                             (1.0, rng.choice([0.5, -0.5]), 0.0, 1.0, float(rng.randrange(-2, 3)), 0.0),
+                             (1.0, 0.0, 0.0, 1.0, float(rng.randrange(-3, 4)), float(rng.randrange(-3, 4))),
+                             (1.0, 0.0, 0.0, 1.0, 0.5, 0.25), xf, xf])
+            rx, ry, rw, rh = float(rng.randrange(-2, W)), float(rng.randrange(-2, H)), float(rng.randrange(1, W + 2)), float(rng.randrange(1, H + 2))
+            s_ = "solid " + gen.hexpx(gen.premul_pixel(rng)); o = scene.rand_opts(rng)
+            rect = ["M " + scene.fpt(rx, ry), "L " + scene.fpt(rx + rw, ry), "L " + scene.fpt(rx + rw, ry + rh), "L " + scene.fpt(rx, ry + rh), "Z"]
+            A.append("scene %d %s ; xf %s ; fillrect %d %d %d %d %s %s" % (len(A), hdr, scene.xf_tokens(tt), FB(rx), FB(ry), FB(rw), FB(rh), s_, o))
+            B.append("scene %d %s ; xf %s ; fill %s %s %s" % (len(B), hdr, scene.xf_tokens(tt), scene.path_tokens(rect, 0), s_, o))
+            kinds.append("fill_rect under a transform == fill of the rectangle path under the same transform")
+        elif k == 4:
+            # a non-invertible transform: every drawing call draws nothing, whatever the source
+            sx = rng.choice([(0.0,) * 6, (1.0, 1.0, 1.0, 1.0, 0.0, 0.0), (1.0, 2.0, 2.0, 4.0, 1.0, 1.0), (1.0, 0.0, 0.0, 0.0, 3.0, 3.0),
+                             (0.0, 0.0, 0.0, 2.0, 1.0, 0.0), (0.5, 0.25, 1.0, 0.5, 2.0, 2.0)])
+            d = scene.draw_op(rng, W, H, dict(sources=["solid", "solid", "image", "linearc"],
+                                              draw_kinds=["mask", "mask", "fill", "fillrect", "stroke", "drawimage"]))
+            A.append("scene %d %s ; xf %s ; %s" % (len(A), hdr, scene.xf_tokens(sx), d))
+            B.append("scene %d %s ; xf %s" % (len(B), hdr, scene.xf_tokens(sx)))
+            kinds.append("a non-invertible transform makes every drawing call draw nothing")
+        elif k == 0:
             p = scene.rand_path(rng, W, H, curves=0.0)
             s = "solid " + gen.hexpx(gen.premul_pixel(rng)); o = scene.rand_opts(rng)
             A.append("scene %d %s ; xf %s ; fill %s %s %s" % (len(A), hdr, xt, p, s, o))
